@@ -35,6 +35,75 @@ def _fmt(s) -> str:
     return f"dst={'y' if s[0] else 'n'},start={'y' if s[1] else 'n'},end={'y' if s[2] else 'n'},data={s[3]},origin={s[4]}"
 
 
+def _is_entrywise_wipe(fn: ast.FunctionDef, pos, call: ast.Call) -> bool:
+    """fn(path) deletes the entries of the folder `path` one by one, every entry, without looking at their names, and keeps the
+    folder: `for name in [sorted](os.listdir(p) | p.iterdir() | os.scandir(p)): <rmtree / unlink / remove of the entry>`, the only
+    tests being kind tests of the entry (is_dir / is_symlink / isdir / islink / is_file / isfile).  The start marker is one of the
+    entries, so it vanishes at an unspecified point of the sequence - the abstraction of rmtree minus the removal of the folder.
+    Anything else (a name comparison, continue / break, a second loop, renames) is not recognised: the caller treats the
+    helper as an unknown destructive effect (undecided)."""
+    params = [a.arg for a in fn.args.posonlyargs + fn.args.args]
+    if pos is None:
+        kw = [k.arg for k in call.keywords]
+        par = next((k for k in kw if k in params), None)
+        if par is None or len(kw) != 1:
+            return False
+    else:
+        if pos >= len(params):
+            return False
+        par = params[pos]
+    aliases = {par}
+    loops = [y for y in ast.walk(fn) if isinstance(y, (ast.For, ast.While, ast.AsyncFor))]
+    if len(loops) != 1 or not isinstance(loops[0], ast.For) or loops[0].orelse:
+        return False
+    loop = loops[0]
+    for st in fn.body:
+        if st is loop:
+            continue
+        if isinstance(st, ast.Expr) and isinstance(st.value, ast.Constant):
+            continue  # docstring
+        if isinstance(st, ast.Assign) and len(st.targets) == 1 and isinstance(st.targets[0], ast.Name) and isinstance(st.value, ast.Call) \
+                and getattr(st.value.func, "id", "") == "Path" and len(st.value.args) == 1 and isinstance(st.value.args[0], ast.Name) \
+                and st.value.args[0].id in aliases:
+            aliases.add(st.targets[0].id)
+            continue
+        return False
+    it = loop.iter
+    if isinstance(it, ast.Call) and getattr(it.func, "id", "") in ("sorted", "list", "tuple") and len(it.args) == 1 and not it.keywords:
+        it = it.args[0]
+    if not isinstance(it, ast.Call):
+        return False
+    fnm = getattr(it.func, "attr", getattr(it.func, "id", ""))
+    if fnm in ("listdir", "scandir") and len(it.args) == 1 and isinstance(it.args[0], ast.Name) and it.args[0].id in aliases:
+        pass
+    elif fnm == "iterdir" and isinstance(it.func, ast.Attribute) and isinstance(it.func.value, ast.Name) and it.func.value.id in aliases \
+            and not it.args:
+        pass
+    else:
+        return False
+    if not isinstance(loop.target, ast.Name):
+        return False
+    banned = (ast.Compare, ast.Continue, ast.Break, ast.Return, ast.Raise, ast.Try, ast.With, ast.Lambda, ast.FunctionDef)
+    deletes = 0
+    for st in loop.body:
+        for y in ast.walk(st):
+            if isinstance(y, banned):
+                return False
+            if isinstance(y, ast.Call):
+                cn = getattr(y.func, "attr", getattr(y.func, "id", ""))
+                if cn in ("rmtree", "unlink", "remove"):
+                    deletes += 1
+                elif cn not in ("is_dir", "is_symlink", "is_file", "isdir", "islink", "isfile", "join", "Path"):
+                    return False
+            if isinstance(y, ast.If):
+                # every arm deletes: an arm without a deletion skips entries
+                for arm in (y.body, y.orelse):
+                    if not any(isinstance(z, ast.Call) and getattr(z.func, "attr", getattr(z.func, "id", "")) in
+                               ("rmtree", "unlink", "remove") for s2 in arm for z in ast.walk(s2)):
+                        return False
+    return deletes >= 1
+
+
 class Model:
     """Effect / test classification of the nodes of one copy function."""
 
@@ -131,6 +200,9 @@ class Model:
                     body_calls = {getattr(y.func, "attr", getattr(y.func, "id", "")) for y in ast.walk(r_[1].node)
                                   if isinstance(y, ast.Call)}
                     if body_calls & {"rmtree", "unlink", "remove", "rmdir", "removedirs", "rename", "replace", "move"}:
+                        if "dst" in roles and _is_entrywise_wipe(r_[1].node, roles.index("dst") if roles.index("dst") < len(c.args)
+                                                                 else None, c):
+                            return ("wipe", nm)
                         return ("unknown-destructive", nm)
         return None
 
@@ -208,9 +280,9 @@ def execute(m: Model, start_state) -> Run:
         if k and not k[0].startswith("test-"):
             kind = k[0]
             cp = f"{kind}@{_where_state(start_state)}"
-            if kind in ("rmtree", "copy") and st[1] and st[2] and st[3] == "complete":
+            if kind in ("rmtree", "wipe", "copy") and st[1] and st[2] and st[3] == "complete":
                 violations.append(("I2", f"{kind} is executed on a folder that carries both markers (a completed automatic copy "
-                                         f"is {'deleted' if kind == 'rmtree' else 'redone'}) [{cp}; from {_fmt(start_state)}]"))
+                                         f"is {'deleted' if kind != 'copy' else 'redone'}) [{cp}; from {_fmt(start_state)}]"))
             if kind == "rmtree-ancestor":
                 violations.append(("I2", f"{k[1]} deletes a folder above the destination: sibling folders under it - completed "
                                          f"automatic copies of other relative paths and user-provided folders - are destroyed [{cp}]"))
@@ -249,6 +321,18 @@ def execute(m: Model, start_state) -> Run:
                 crash_points.append((f"after:{cp}", ns))
                 nxt_states = [ns]
                 eff = eff + ("copy",)
+            elif kind == "wipe":
+                # the entries of the folder (the start marker among them) vanish one by one, the folder stays
+                for s_ in (True, False):
+                    for e_ in ((True, False) if end else (False,)):
+                        for d_ in ("partial", "none"):
+                            if s_ and not start:
+                                continue
+                            crash_points.append((f"inside:{cp}:start={'kept' if s_ else 'gone'}", (True, s_, e_, d_, origin)))
+                ns = (True, False, False, "none", origin if origin != "none" else "auto")
+                crash_points.append((f"after:{cp}", ns))
+                nxt_states = [ns]
+                eff = eff + ("rmtree",)
             elif kind == "rmtree":
                 # entries vanish in an unspecified order
                 for s_ in (True, False):
